@@ -625,34 +625,70 @@ def run(run):
         sy = S.Sym(F)
         env = {}
         sy.term(fn["body"], env)
+        site5 = F.loc(fn["body"])
         rets = [x for x in T.walk(fn["body"]) if T.is_call(x, "retain")]
-        ok1 = False
+        verdict, why = "undecided", "no retain over self's entries with a lookup in other found"
         if rets:
             cl = T.peel(rets[0]["a"][1])
             if cl.get("k") == "Closure":
                 c = F.closure_by_path(cl["d"])
                 ct = S.Sym(F).term(c["body"])
-                both = [x for x in S.subterms(ct) if isinstance(x, tuple) and x and x[0] == "ite" and x[1][0] == "let" and is_call(x[1][2], "get")]
-                if both:
-                    th, el = both[0][2], both[0][3]
-                    ok1 = any(is_call(y, "merge_with") for y in S.subterms(th)) and any(is_call(y, "merge_with") and any(is_call(z, "top") for z in S.subterms(y)) for y in S.subterms(el))
+                # the lookup of the key in other: `if let Some(v) = other.get(k) {..} else {..}` or `match other.get(k) {Some(v) => .., None => ..}`
+                present = absent = None
+                for x in S.subterms(ct):
+                    if isinstance(x, tuple) and x and x[0] == "ite" and x[1][0] == "let" and is_call(x[1][2], "get") and x[1][1].startswith("Some"):
+                        present, absent = x[2], x[3]
+                    elif isinstance(x, tuple) and x and x[0] == "match" and is_call(S.value(x[1]), "get"):
+                        for pat, g, b in x[2]:
+                            if pat.strip().startswith("Some"):
+                                present = b
+                            elif pat.strip().startswith("None") or pat.strip() == "_":
+                                absent = b
                 res = S.value(ct)
-                ok1 = ok1 and res[0] == "not" and is_call(res[1], "is_top")
-        run.check("R5", "MergeTop|keys-of-self", ok1, "MergeTopStrategy: a value whose key is missing in other must be merged with Top (not kept as is), and Top results removed", F.loc(fn["body"]))
-        ok2 = False
+                drops_top = (res[0] == "not" and is_call(res[1], "is_top")) or any(isinstance(y, tuple) and y and y[0] == "not" and is_call(y[1], "is_top") for y in S.subterms(res))
+                if present is not None and absent is not None:
+                    m_present = any(is_call(y, ("merge_with", "merge")) for y in S.subterms(present))
+                    m_absent_top = any(is_call(y, ("merge_with", "merge")) and any(is_call(z, "top") for z in S.subterms(y)) for y in S.subterms(absent))
+                    m_absent_any = any(is_call(y, ("merge_with", "merge")) for y in S.subterms(absent))
+                    if m_present and m_absent_top and drops_top:
+                        verdict, why = "holds", ""
+                    elif not m_absent_any:
+                        verdict, why = "violated", "a value whose key is missing in other is kept as it is (not merged with Top)"
+                    elif not m_present:
+                        verdict, why = "violated", "a value whose key exists in other is not merged with other's value"
+                    elif not drops_top:
+                        verdict, why = "undecided", "Top results are not visibly removed"
+        getattr(run, verdict)("R5", "MergeTop|keys-of-self", "MergeTopStrategy: a value whose key is missing in other must be merged with Top (not kept as is), and Top results removed%s" % ((" -- " + why) if why else ""), site5)
+        # keys only in other
+        verdict, why = "undecided", "iteration over other's entries not recognised"
+        iter_other = False
         for node, pat, it, body in T.for_loops(fn["body"]):
             itt = sy.ev(it, env)
             over_other = any(isinstance(y, tuple) and y and y[0] == "var" and y[1] == "other" for y in S.subterms(itt))
+            if over_other:
+                iter_other = True
             ins = T.paths_to(body, lambda y: T.is_call(y, "insert"))
             if over_other and ins:
                 n, conds = ins[0]
                 cs = [(sy.ev(cd[1], env), cd[2]) for cd in conds if cd[0] == "if"]
                 missing = any((is_call(c, "is_none") and p) or (is_call(c, "contains_key") and not p) or (c[0] == "not" and is_call(c[1], "contains_key") and p) for c, p in cs)
                 nontop = any(c[0] == "not" and is_call(c[1], "is_top") and p for c, p in cs) or any(is_call(c, "is_top") and not p for c, p in cs)
-                val = sy.ev(n["a"][2], env)
                 merged_with_top = any(T.is_call(x, "top") for x in T.walk(body)) and any(T.is_call(x, ("merge_with", "merge")) for x in T.walk(body))
-                ok2 = missing and nontop and merged_with_top
-        run.check("R5", "MergeTop|keys-only-in-other", ok2, "MergeTopStrategy: keys present only in other must be visited too: their value merged with Top is inserted unless it is Top", F.loc(fn["body"]))
+                if missing and nontop and merged_with_top:
+                    verdict, why = "holds", ""
+                elif not merged_with_top:
+                    verdict, why = "violated", "values of keys present only in other are inserted without being merged with Top"
+        if verdict != "holds":
+            # iterator-chain form: other.iter().filter(..contains_key..).filter_map(..top..merge..).collect() + extend / insert
+            for y in T.walk(fn["body"]):
+                if y.get("k") == "Call" and y.get("n") in ("iter", "into_iter") and y.get("a") and T.peel(y["a"][0]).get("k") in ("Var", "Upvar") and T.peel(y["a"][0]).get("n") == "other":
+                    iter_other = True
+            deep = list(T.walk_deep(F, fn["body"], depth=0))
+            if iter_other and any(T.is_call(x, "contains_key") for x in deep) and any(T.is_call(x, "top") for x in deep) and any(T.is_call(x, ("merge_with", "merge")) for x in deep) and any(T.is_call(x, ("extend", "insert")) for x in deep) and any(T.is_call(x, "is_top") for x in deep):
+                verdict, why = "holds", "iterator-chain form"
+        if verdict == "undecided" and not iter_other:
+            verdict, why = "violated", "other's entries are never iterated: keys present only in other are not visited"
+        getattr(run, verdict)("R5", "MergeTop|keys-only-in-other", "MergeTopStrategy: keys present only in other must be visited too: their value merged with Top is inserted unless it is Top%s" % ((" -- " + why) if why else ""), site5)
         # DomainMap delegates to the strategy
         fn = F.fn("merge_with", adt="DomainMap", trait="AbstractDomain")
         t = S.Sym(F).term(fn["body"])
